@@ -41,6 +41,8 @@ type Check struct {
 	Rule        string
 	Assumptions []string
 	Exhaustive  bool
+	// Level is the evidence level (default "exploration").
+	Level string
 	// Workers caps the number of worker processes (0 = up to 16).
 	Workers int
 	// Floor is the minimum distinct_nontrivial for a non-inconclusive run.
